@@ -397,7 +397,7 @@ def shards(tier):
     out = [{"kind": "synthetic", "part": i, "nparts": 6} for i in range(6)]
     out += [{"kind": "real", "part": i, "nparts": 2} for i in range(2)]
     out += [{"kind": "pairs", "part": i, "nparts": 6} for i in range(6)]
-    out += [{"kind": "variations", "n": 60 if tier == "quick" else 1500, "idx": i} for i in range(2)]
+    out += [{"kind": "variations", "n": 60 if tier == "quick" else 10000, "idx": i} for i in range(2)]
     out += [{"kind": "faults", "part": i, "nparts": 4} for i in range(4)]
     return out
 
